@@ -517,7 +517,7 @@ def _closure_returns_cleared(F, cb):
 def r1c_pool_hygiene(ctx):
     F = ctx.F
     pools = find_pools(F)
-    if len(pools) < 5:
+    if len(pools) < (5 if ctx.config in ("default", "all-features") else 1):
         ctx.bad("pools", "", "only %d reuse pools found" % len(pools), kind="anchor-missing")
     for pid, info in sorted(pools.items()):
         name = "%s.%s" % (short(pid[0]), pid[1])
@@ -561,4 +561,4 @@ def r1c_pool_hygiene(ctx):
                       "its old contents resurface in the next value built from the pool (after a reset: data of the previous session)" % name, ok)
 
 
-RULES.insert(2, ("C09.R1c", "reuse pools never carry data: pooled collections are emptied when returned or when taken", r1c_pool_hygiene, 5, None))
+RULES.insert(2, ("C09.R1c", "reuse pools never carry data: pooled collections are emptied when returned or when taken", r1c_pool_hygiene, 1, None))
